@@ -314,6 +314,9 @@ def _index_cases():
     W = "__import__('numpy').arange(1.0, 10.0).reshape(3, 3)"
     for lab, expr in (("view-T+sparse", f"anp.sum({W} * (x * x + (x[[0, 0, 2]] + x.T)))"), ("sparse+view-T", f"anp.sum({W} * ((x[[0, 0, 2]] + x.T) + x * x))"),
                       ("view-reshape+sparse", f"anp.sum({W} * (x * 2 + (x[[1, 1, 0]] + anp.reshape(x, (3, 3)))))"), ("view-ravel+sparse", f"anp.sum({W}.ravel() * (anp.ravel(x) + (anp.ravel(x)[[0, 0, 8, 4, 4, 1, 2, 3, 5]] + anp.ravel(x * 1))))"),
+                      ("2x view-T then full integer index", f"anp.sum({W} * (x.T * 2 + x.T * 3)) + anp.sum(x[[0, 1, 2, 2], [1, 2, 0, 0]] * __import__('numpy').array([2.0, 3.0, 5.0, 7.0]))"),
+                      ("full integer index after 2x view-T", f"anp.sum(x[[0, 1, 2, 2], [1, 2, 0, 0]] * __import__('numpy').array([2.0, 3.0, 5.0, 7.0])) + anp.sum({W} * (x.T * 2 + x.T * 3))"),
+                      ("view-T, view-T, scalar index", f"anp.sum({W} * x.T) + anp.sum({W} * 2 * x.T) + x[1, 2] * 11 + x[(2, 0)] * 13"),
                       ("diamond-view", f"anp.sum({W} * ((x.T + x[::-1]) + (x.T + x[[2, 2, 0]])))"), ("swap+sparse", f"anp.sum({W} * (anp.swapaxes(x, 0, 1) + x[:, [0, 0, 1]] + x))")):
         for mode in ("sym", "flt"):
             e_ = expr if mode == "sym" else expr.replace("x * x", "x * 3")   # float mode is exact for LINEAR maps only
@@ -477,6 +480,9 @@ def run_case(case):
             jshape_ok, jbad = True, None
             for V in Vs:
                 vlist = H.entries(V)
+                if isinstance(V, onp.ndarray):      # the caller's tangent is foreign memory too
+                    V.flags.writeable = False
+                    frozen.append((V, V.copy()))
                 val2, tang = make_jvp(f, args[a])(V)
                 ts = H.shape_of(tang)
                 if ts != oshape:
